@@ -2,7 +2,8 @@
 //! A pure function of (pool, run seed, run kind).
 
 use crate::gen::Pool;
-use crate::sim::{Policy, RunSpec, NSITES};
+use crate::sim::{Policy, RunSpec};
+use crate::tick::{bb_guards, SITE_COUNT};
 use crate::types::*;
 
 #[derive(Clone, Debug, Default)]
@@ -22,6 +23,43 @@ pub struct PoolIndex {
     pub panic_kinds: Vec<Vec<u32>>,
     /// Ok entries per evaluator
     pub ok_by_ev: Vec<Vec<u32>>,
+    /// (evaluator, token) -> non-panicking entries whose text uses that function / operator: a run can
+    /// concentrate on one of them, so that concurrent calls exercise the same code with different arguments
+    pub fn_buckets: Vec<(u8, String, Vec<u32>)>,
+    /// indices into fn_buckets that the change under test touches (from `git diff` against the hook commit)
+    pub hint_buckets: Vec<usize>,
+    /// evaluators the change under test touches
+    pub hint_evs: Vec<Ev>,
+}
+
+pub const FN_TOKENS: [&str; 64] = [
+    "abs(", "sqrt(", "exp(", "exp2(", "ln(", "lb(", "pow(", "root(", "log(", "sgn(", "sign(", "signum(", "trunc(", "truncate(",
+    "floor(", "ceil(", "round(", "w(", "lambert_w(", "sin(", "asin(", "cos(", "acos(", "tan(", "atan(", "sinh(", "asinh(", "arsinh(",
+    "cosh(", "acosh(", "arcosh(", "tanh(", "atanh(", "artanh(", "mod(", "atan2(", "ilog(", "min(", "max(", "avg(", "med(", "median(",
+    "gcd(", "lcm(", "!", "%", "^", "°", "rad", "⌊", "⌈", "π", "pi", "<<", ">>", "&", "|", "SUPERSCRIPT", "@", "/", "*", "-", "+", "LITERAL.",
+];
+
+fn uses_token(text: &str, tok: &str) -> bool {
+    match tok {
+        "SUPERSCRIPT" => text.chars().any(|c| "⁰¹²³⁴⁵⁶⁷⁸⁹".contains(c)),
+        "LITERAL." => text.contains('.'),
+        _ => {
+            if !tok.ends_with('(') {
+                return text.contains(tok);
+            }
+            // a function name: must not be the tail of a longer name (log( vs ilog(, sin( vs asin()
+            let mut from = 0;
+            while let Some(i) = text[from..].find(tok) {
+                let at = from + i;
+                let prev = text[..at].chars().last();
+                if !prev.map_or(false, |c| c.is_ascii_alphabetic() || c == '_' || c.is_ascii_digit() && false) {
+                    return true;
+                }
+                from = at + tok.len();
+            }
+            false
+        }
+    }
 }
 
 pub fn index_pool(pool: &mut Pool) -> PoolIndex {
@@ -49,6 +87,26 @@ pub fn index_pool(pool: &mut Pool) -> PoolIndex {
         }
         ix.err_kinds = ek.into_values().collect();
         ix.panic_kinds = pk.into_values().collect();
+    }
+    {
+        use std::collections::BTreeMap;
+        let mut fb: BTreeMap<(u8, usize), Vec<u32>> = BTreeMap::new();
+        for (i, e) in pool.entries.iter().enumerate() {
+            if matches!(e.oracle, Outcome::Panic(_)) || e.ticks > 200_000 {
+                continue;
+            }
+            let stripped: String = e.call.expr.split_whitespace().collect();
+            for (t, tok) in FN_TOKENS.iter().enumerate() {
+                if uses_token(&stripped, tok) {
+                    fb.entry((e.call.ev as u8, t)).or_default().push(i as u32);
+                }
+            }
+        }
+        for ((ev, t), v) in fb {
+            if v.len() >= 2 {
+                ix.fn_buckets.push((ev, FN_TOKENS[t].to_string(), v));
+            }
+        }
     }
     for (id, es) in pool.by_expr.iter().enumerate() {
         if es.len() >= 2 {
@@ -101,17 +159,22 @@ fn pick_policy(r: &mut Rng, nthreads: usize, kind: RunKind, allow_intra: bool) -
     if !allow_intra {
         return if k < 35 { Policy::Serial } else { Policy::CallAtomic { q: [0.2, 0.5, 0.9][r.below(3)] } };
     }
-    if k < 8 {
+    // with block-level ticks a call has ~50x more decision points: scale the per-tick switch probability
+    let bb = bb_guards() > 0;
+    let scale = if bb { 1.0 / 40.0 } else { 1.0 };
+    if k < 6 {
         Policy::Serial
-    } else if k < 22 {
+    } else if k < 16 {
         Policy::CallAtomic { q: [0.2, 0.5, 0.9][r.below(3)] }
-    } else if k < 55 {
-        Policy::RandomWalk { p: [0.01, 0.03, 0.1, 0.3][r.below(4)] }
-    } else if k < 75 {
+    } else if k < 42 {
+        Policy::RandomWalk { p: [0.01, 0.03, 0.1, 0.3][r.below(4)] * scale }
+    } else if k < 60 {
         Policy::Pct { k: r.range(1, 3) }
+    } else if k < 78 || !bb {
+        // the real source sites only
+        Policy::Targeted { site: r.below(SITE_COUNT), p: 0.02 * scale }
     } else {
-        // the real sites only (not the boundary / exit pseudo-sites)
-        Policy::Targeted { site: r.below(NSITES - 2), p: 0.02 }
+        Policy::RaceDirected { p: [0.0, 0.002, 0.01][r.below(3)] * scale * 10.0, q: [0.2, 0.5, 0.9][r.below(3)] }
     }
 }
 
@@ -140,6 +203,20 @@ pub fn make_spec(pool: &Pool, ix: &PoolIndex, seed: u64, kind: RunKind, allow_in
     } else {
         Vec::new()
     };
+    // function theme: most calls of the run use one function / operator of one evaluator
+    let bucket: Option<usize> = if !matches!(kind, RunKind::Long { .. }) && !ix.fn_buckets.is_empty() && r.chance(0.4) {
+        if !ix.hint_buckets.is_empty() && r.chance(0.7) {
+            Some(*r.pick(&ix.hint_buckets))
+        } else {
+            Some(r.below(ix.fn_buckets.len()))
+        }
+    } else {
+        None
+    };
+    if let Some(b) = bucket {
+        faults_enabled.push("function_theme");
+        let _ = b;
+    }
     let total_calls_long = if let RunKind::Long { calls } = kind { calls } else { 0 };
     // long histories: half of them concentrate on one evaluator, so that per-evaluator state (a bounded cache,
     // a growing buffer) sees thousands of distinct calls; the hot-expression theme is mostly off there
@@ -165,6 +242,19 @@ pub fn make_spec(pool: &Pool, ix: &PoolIndex, seed: u64, kind: RunKind, allow_in
         };
         let mut calls: Vec<u32> = Vec::with_capacity(ncalls);
         while calls.len() < ncalls {
+            if let Some(b) = bucket {
+                if r.chance(0.75) {
+                    calls.push(*r.pick(&ix.fn_buckets[b].2));
+                    continue;
+                }
+            }
+            if !ix.hint_evs.is_empty() && bucket.is_none() && r.chance(0.5) {
+                let ev = *r.pick(&ix.hint_evs) as usize;
+                if !ix.ok_by_ev[ev].is_empty() {
+                    calls.push(*r.pick(&ix.ok_by_ev[ev]));
+                    continue;
+                }
+            }
             if !hot.is_empty() && r.chance(0.7) {
                 let ex = *r.pick(&hot);
                 calls.push(*r.pick(&pool.by_expr[ex as usize]));
